@@ -83,7 +83,7 @@ class Check(object):
         modules = module if isinstance(module, (list, tuple)) else [module]
         res = None
         for i, m in enumerate(modules):
-            r = leantool.stage(m, extract=extract and i == 0, exe=exe and i == 0)
+            r = leantool.stage(m, extract=extract and i == 0, exe=exe and i == 0, thorough=(self.tier == 'thorough'))
             if res is None:
                 res = r
             else:
@@ -93,6 +93,8 @@ class Check(object):
                 res['axioms'].update(r['axioms'])
                 for k in ('broken', 'extract_errors', 'audit', 'log_tail'):
                     res[k] = list(res.get(k) or []) + list(r.get(k) or [])
+                if r.get('leanchecker'):
+                    res.setdefault('leanchecker_more', []).append(r['leanchecker'])
         self.lean = res
         return res['ok']
 
@@ -161,6 +163,8 @@ class Check(object):
         self.cov['axioms_used'] = sorted(set(a for v in (self.lean.get('axioms') or {}).values() for a in v))
         self.cov['partial_theorems'] = [t for t in th if t.endswith('_partial')]
         self.cov['known_findings_seen'] = sorted(seen_known)
+        if self.lean.get('leanchecker'):
+            self.cov['leanchecker'] = self.lean['leanchecker']
         if self.notes:
             self.cov['notes'] = self.notes
         ev = {'property_id': self.pid, 'tier': self.tier, 'seed': self.seed, 'level': self.level,
